@@ -36,6 +36,6 @@ package memory
 //@   ensures[C10] @range imp(err == nil && msgSeqNumFrom <= j && j <= msgSeqNumTo, mhas(s.messages, j) && nth(res, j - msgSeqNumFrom) == mget(s.messages, j))
 //@   ensures[C10] @frame s.counterOutgoing == old(s.counterOutgoing)
 //@   loop 1:
-//@     invariant[C10] msgSeqNumFrom <= i && i <= msgSeqNumTo + 1 && len(sendingMessages) == i - msgSeqNumFrom
-//@     invariant[C10] imp(msgSeqNumFrom <= j && j < i, mhas(s.messages, j) && nth(sendingMessages, j - msgSeqNumFrom) == mget(s.messages, j))
-//@     decreases msgSeqNumTo + 1 - i
+//@     invariant[C10] 0 <= iter && msgSeqNumFrom + iter <= msgSeqNumTo + 1 && len(sendingMessages) == iter
+//@     invariant[C10] imp(msgSeqNumFrom <= j && j < msgSeqNumFrom + iter, mhas(s.messages, j) && nth(sendingMessages, j - msgSeqNumFrom) == mget(s.messages, j))
+//@     decreases msgSeqNumTo + 1 - msgSeqNumFrom - iter
